@@ -368,7 +368,8 @@ pub fn expr_nullable(g: &Grammar, e: &Expr, null_rules: &BTreeSet<String>) -> bo
             Some(n) => expr_nullable(g, &n.body, null_rules),
             None => false,
         },
-        Expr::Ref { typ, .. } => null_rules.contains(typ),
+        // the built-in Whitespace rule (no rule of that name in the grammar) matches the empty string
+        Expr::Ref { typ, .. } => null_rules.contains(typ) || (typ == "Whitespace" && g.find("Whitespace").is_none()),
     }
 }
 
